@@ -68,6 +68,29 @@ Lemma sout_for env x e body hasie ie : sout' env (SFor x e body hasie ie)
       end
     else None.
 Proof. reflexivity. Qed.
+Lemma sout_forrange env x a1 rest body hasie ie : sout' env (SForRange x a1 rest body hasie ie)
+  = if is_ident x && negb (bstr_eqb x n_ij) then
+      match cints ij env (a1 :: rest) with
+      | Some zs =>
+          match range_args 0%Z 1%Z zs with
+          | Some (a, l, st) =>
+              if (0 <? st)%Z && small (l - a) then
+                let items := range_items (Z.to_nat (Z.max 0 (l - a))) a l st in
+                match items with
+                | [] => if hasie then match bout' env ie with Some t => Some (t, env) | None => None end else Some ([], env)
+                | _ :: _ =>
+                    match for_out (fun en => bout' en body) x (env_set env (x ++ c_lastindex) (VInt (Z.of_nat (length items) - 1))) 0%Z items with
+                    | Some t => Some (t, env)
+                    | None => None
+                    end
+                end
+              else None
+          | None => None
+          end
+      | None => None
+      end
+    else None.
+Proof. reflexivity. Qed.
 Lemma bout_nil env : bout' env BNil = Some []. Proof. reflexivity. Qed.
 Lemma bout_cons env s r : bout' env (BCons s r)
   = match sout' env s with
@@ -107,6 +130,16 @@ Lemma sgen_for sc n x e body hasie ie : sgen' sc n (SFor x e body hasie ie)
     (JSForeach (jsc_name x (n + 1)) (jsc_name (x ++ t_list) (n + 1)) (jsc_name (x ++ t_limit) (n + 1)) (jsc_name (x ++ t_index) (n + 1))
                (cgen sc e) jb hasie ji, (sc, n2)).
 Proof. reflexivity. Qed.
+Lemma sgen_forrange sc n x a1 rest body hasie ie : sgen' sc n (SForRange x a1 rest body hasie ie)
+  = let '(jb, n1) := bgen' ([] :: loop_frame x (n + 1) :: sc) (n + 1) body in
+    let '(ji, n2) := if hasie then bgen' ([] :: sc) n1 ie else (JBNil, n1) in
+    let '(ei, el, es) := match range_args (JENum 0) (JENum 1) (map (cgen sc) (a1 :: rest)) with
+                         | Some t => t
+                         | None => (JENull, JENull, JENull)
+                         end in
+    (JSForRange (jsc_name x (n + 1)) (jsc_name (x ++ t_init) (n + 1)) (jsc_name (x ++ t_step) (n + 1)) (jsc_name (x ++ t_limit) (n + 1))
+                (jsc_name (x ++ t_index) (n + 1)) ei es el jb hasie ji, (sc, n2)).
+Proof. reflexivity. Qed.
 Lemma bgen_nil sc n : bgen' sc n BNil = (JBNil, n). Proof. reflexivity. Qed.
 Lemma bgen_cons sc n s r : bgen' sc n (BCons s r)
   = let '(j, (sc1, n1)) := sgen' sc n s in let '(jr, n2) := bgen' sc1 n1 r in (JBCons j jr, n2).
@@ -141,6 +174,25 @@ Lemma js_exec_foreach env vd vlist vlen vidx e body hasie ie : js_exec env (JSFo
          else js_for (fun en => jb_exec en body) (js_item_elem vlist) vd vlen vidx (length l) (jvset env2 vidx (JNum 0))
      | JUndef | JNull => Err je_type
      | _ => OutOfModel
+     end).
+Proof. reflexivity. Qed.
+Lemma js_exec_forrange env vd vinit vstep vlen vidx ei es el body hasie ie : js_exec env (JSForRange vd vinit vstep vlen vidx ei es el body hasie ie)
+  = (vi <- js_eval env ei ;;
+     let env1 := jvset env vinit vi in
+     vs <- js_eval env1 es ;;
+     let env2 := jvset env1 vstep vs in
+     vl <- js_eval env2 el ;;
+     match vl, jvget env2 vinit, jvget env2 vstep with
+     | JNum l, Some (JNum a), Some (JNum s) =>
+         cv <- js_range_count l a s ;;
+         match cv with
+         | JNum c =>
+             let env3 := jvset env2 vlen cv in
+             if hasie && (c <=? 0)%Z then jb_exec env3 ie
+             else js_for (fun en => jb_exec en body) (js_item_lin vinit vstep) vd vlen vidx (Z.to_nat c) (jvset env3 vidx (JNum 0))
+         | _ => OutOfModel
+         end
+     | _, _, _ => OutOfModel
      end).
 Proof. reflexivity. Qed.
 Lemma jb_exec_cons env s r : jb_exec env (JBCons s r) = (env' <- js_exec env s ;; jb_exec env' r). Proof. reflexivity. Qed.
@@ -392,6 +444,12 @@ Proof.
     destruct hasie.
     + destruct (bgen mode buf ([] :: sc) n1 ie) as [ji n2] eqn:E2. specialize (IHi _ _ _ _ _ E2). inversion H; subst. lia.
     + inversion H; subst. lia.
+  - intros x a1 rest body IHb hasie ie IHi buf sc n j sc' n' H. rewrite sgen_forrange in H.
+    destruct (bgen mode buf ([] :: loop_frame x (n + 1) :: sc) (n + 1) body) as [jb n1] eqn:E1. specialize (IHb _ _ _ _ _ E1).
+    destruct (match range_args (JENum 0) (JENum 1) (map (cgen sc) (a1 :: rest)) with Some t => t | None => (JENull, JENull, JENull) end) as [[ei el] es].
+    destruct hasie.
+    + destruct (bgen mode buf ([] :: sc) n1 ie) as [ji n2] eqn:E2. specialize (IHi _ _ _ _ _ E2). inversion H; subst. lia.
+    + inversion H; subst. lia.
   - intros buf sc n jb n' H. inversion H. lia.
   - intros s IHs r IHr buf sc n jb n' H. rewrite bgen_cons in H.
     destruct (sgen mode buf sc n s) as [j [sc1 n1]] eqn:E1. destruct (bgen mode buf sc1 n1 r) as [jr n2] eqn:E2. inversion H; subst.
@@ -422,6 +480,9 @@ Proof.
   - rewrite sgen_switch in H. destruct (kgen mode buf sc n cs) as [jc n1]. inversion H; auto.
   - rewrite sgen_for in H. destruct (bgen mode buf ([] :: loop_frame x (n + 1) :: sc) (n + 1) body) as [jb n1].
     destruct hasie; [destruct (bgen mode buf ([] :: sc) n1 ie) as [ji n2]|]; inversion H; auto.
+  - rewrite sgen_forrange in H. destruct (bgen mode buf ([] :: loop_frame x (n + 1) :: sc) (n + 1) body) as [jb n1].
+    destruct (match range_args (JENum 0) (JENum 1) (map (cgen sc) (a1 :: rest)) with Some t => t | None => (JENull, JENull, JENull) end) as [[ei el] es].
+    destruct hasie; [destruct (bgen mode buf ([] :: sc) n1 ie) as [ji n2]|]; inversion H; auto.
 Qed.
 
 (* the names a statement binds are identifiers *)
@@ -430,7 +491,7 @@ Definition binder_ok (s : cstmt) : Prop :=
 Lemma sgen_after_ident mode buf sc n s j sc' n' : binder_ok s -> sgen mode buf sc n s = (j, (sc', n')) ->
   sc' = sc \/ (exists name, is_ident name = true /\ sc' = jsc_bind_pure sc name (jsc_name name (n + 1)) /\ n + 1 <= n').
 Proof.
-  intros Hb H. destruct s as [t|e ds|nm e|nm body|c th rest|v cs|x e body hasie ie]; cbn [binder_ok] in Hb.
+  intros Hb H. destruct s as [t|e ds|nm e|nm body|c th rest|v cs|x e body hasie ie|x a1 rest body hasie ie]; cbn [binder_ok] in Hb.
   - inversion H; auto.
   - inversion H; auto.
   - inversion H; subst. right. exists nm. split; [exact Hb|]. split; [reflexivity|lia].
@@ -439,6 +500,9 @@ Proof.
   - rewrite sgen_if in H. destruct (bgen mode buf ([] :: sc) n th) as [jt n1]. destruct (egen mode buf sc n1 rest) as [jr n2]. inversion H; auto.
   - rewrite sgen_switch in H. destruct (kgen mode buf sc n cs) as [jc n1]. inversion H; auto.
   - rewrite sgen_for in H. destruct (bgen mode buf ([] :: loop_frame x (n + 1) :: sc) (n + 1) body) as [jb n1].
+    destruct hasie; [destruct (bgen mode buf ([] :: sc) n1 ie) as [ji n2]|]; inversion H; auto.
+  - rewrite sgen_forrange in H. destruct (bgen mode buf ([] :: loop_frame x (n + 1) :: sc) (n + 1) body) as [jb n1].
+    destruct (match range_args (JENum 0) (JENum 1) (map (cgen sc) (a1 :: rest)) with Some t => t | None => (JENull, JENull, JENull) end) as [[ei el] es].
     destruct hasie; [destruct (bgen mode buf ([] :: sc) n1 ie) as [ji n2]|]; inversion H; auto.
 Qed.
 Lemma swf_binder lv s : swf lv s = true -> binder_ok s.
@@ -578,6 +642,67 @@ Proof.
   cbn [orb]. rewrite Nat2Z.id, nth_error_app2 by lia. rewrite Nat.sub_diag. reflexivity.
 Qed.
 
+
+(* ---- range(): the list the renderer builds, and the count the generated code computes ---- *)
+Fixpoint lin_list (k : nat) (a st : Z) : list value :=
+  match k with O => [] | S k' => VInt a :: lin_list k' (a + st)%Z st end.
+Lemma lin_list_length k a st : length (lin_list k a st) = k.
+Proof. revert a. induction k as [|k IH]; intro a; cbn [lin_list length]; [reflexivity|]. rewrite IH. reflexivity. Qed.
+Lemma lin_list_mid st : forall pre k a v r, lin_list k a st = pre ++ v :: r -> v = VInt (a + Z.of_nat (length pre) * st).
+Proof.
+  induction pre as [|p pre IH]; intros k a v r H; destruct k as [|k]; cbn [lin_list app] in H; try discriminate.
+  - inversion H; subst. cbn [length Z.of_nat]. f_equal. lia.
+  - inversion H as [[Hp Hr]]. rewrite (IH k (a + st)%Z v r Hr). cbn [length]. f_equal. lia.
+Qed.
+(* the number of elements of range(a, l, st) *)
+Definition range_cnt (a l st : Z) : Z := Z.max 0 ((l - a + st - 1) / st).
+Lemma range_cnt_step a l st : (0 < st)%Z -> (a < l)%Z -> range_cnt a l st = (range_cnt (a + st) l st + 1)%Z.
+Proof.
+  intros Hs Hl. unfold range_cnt.
+  replace (l - a + st - 1)%Z with ((l - (a + st) + st - 1) + 1 * st)%Z by lia. rewrite Z.div_add by lia.
+  assert (0 <= (l - (a + st) + st - 1) / st)%Z by (apply Z.div_pos; lia). lia.
+Qed.
+Lemma range_cnt_zero a l st : (0 < st)%Z -> (l <= a)%Z -> range_cnt a l st = 0%Z.
+Proof.
+  intros Hs Hl. unfold range_cnt. assert ((l - a + st - 1) / st <= 0)%Z; [|lia].
+  apply Z.lt_succ_r. apply Z.div_lt_upper_bound; lia.
+Qed.
+Lemma range_items_spec st l : (0 < st)%Z -> forall f a, (range_cnt a l st <= Z.of_nat f)%Z ->
+  range_items f a l st = lin_list (Z.to_nat (range_cnt a l st)) a st.
+Proof.
+  intro Hs. induction f as [|f IH]; intros a Hf; cbn [range_items].
+  - replace (Z.to_nat (range_cnt a l st)) with 0%nat by (unfold range_cnt in *; lia). reflexivity.
+  - destruct (Z.ltb_spec a l) as [Hl|Hl].
+    + rewrite (range_cnt_step a l st Hs Hl). assert (0 <= range_cnt (a + st) l st)%Z by (unfold range_cnt; lia).
+      replace (Z.to_nat (range_cnt (a + st) l st + 1)) with (S (Z.to_nat (range_cnt (a + st) l st))) by lia.
+      cbn [lin_list]. f_equal. apply IH. rewrite (range_cnt_step a l st Hs Hl) in Hf. lia.
+    + rewrite range_cnt_zero by lia. reflexivity.
+Qed.
+(* Math.ceil(d / st) on integers *)
+Lemma ceil_div d st : (0 < st)%Z -> (- ((- d) / st) = (d + st - 1) / st)%Z.
+Proof.
+  intro Hs. pose proof (Z.div_mod d st ltac:(lia)) as Hd. pose proof (Z.mod_pos_bound d st Hs) as Hm.
+  set (q := (d / st)%Z) in *. set (m := (d mod st)%Z) in *.
+  destruct (Z.eq_dec m 0) as [Hz|Hz].
+  - replace (- d)%Z with ((- q) * st)%Z by lia. rewrite Z.div_mul by lia.
+    replace (d + st - 1)%Z with (st - 1 + q * st)%Z by lia. rewrite Z.div_add by lia. rewrite Z.div_small by lia. lia.
+  - replace (- d)%Z with ((st - m) + (- q - 1) * st)%Z by lia. rewrite Z.div_add by lia. rewrite (Z.div_small (st - m)) by lia.
+    replace (d + st - 1)%Z with ((m - 1) + (q + 1) * st)%Z by lia. rewrite Z.div_add by lia. rewrite (Z.div_small (m - 1)) by lia. lia.
+Qed.
+Lemma range_cnt_bound a l st : (0 < st)%Z -> (0 <= range_cnt a l st)%Z /\ ((range_cnt a l st - 1) * st <= Z.max 0 (l - a - 1))%Z
+  /\ (range_cnt a l st <= Z.max 0 (l - a))%Z.
+Proof.
+  intro Hs. unfold range_cnt. split; [lia|].
+  destruct (Z.ltb_spec a l) as [Hl|Hl].
+  - assert (H0 : (0 <= (l - a + st - 1) / st)%Z) by (apply Z.div_pos; lia).
+    pose proof (Z.mul_div_le (l - a + st - 1) st Hs) as H1.
+    assert (H2 : ((l - a + st - 1) / st <= l - a)%Z).
+    { apply Z.lt_succ_r. apply Z.div_lt_upper_bound; [lia|]. nia. }
+    split; [|lia]. rewrite Z.max_r by lia. nia.
+  - assert (H0 : ((l - a + st - 1) / st <= 0)%Z) by (apply Z.lt_succ_r; apply Z.div_lt_upper_bound; lia).
+    split; [|lia]. rewrite Z.max_l by lia. nia.
+Qed.
+
 (* the Soy environment inside a loop over $x: the loop's three variables, the rest as outside *)
 Definition loop_env (env envk : bstr -> option value) (x : bstr) (last : Z) : Prop :=
   envk (x ++ c_lastindex) = Some (VInt last)
@@ -628,35 +753,56 @@ Proof.
       * rewrite app_same_tail_eqb, bstr_eqb_sym; exact Exy.
 Qed.
 
+(* lia on the arithmetic hypotheses only (the contexts of the loop cases are large) *)
+Ltac keep_arith T :=
+  lazymatch T with
+  | @eq Z _ _ => idtac | @eq nat _ _ => idtac | @eq N _ _ => idtac
+  | Z.le _ _ => idtac | Z.lt _ _ => idtac | Z.ge _ _ => idtac | Z.gt _ _ => idtac
+  | le _ _ => idtac | lt _ _ => idtac | N.le _ _ => idtac | N.lt _ _ => idtac
+  | _ /\ _ => idtac | _ \/ _ => idtac | ~ _ => idtac
+  | _ => fail
+  end.
+Ltac alia := repeat match goal with H : ?T |- _ => tryif keep_arith T then fail else clear H end; lia.
+
+
+(* what the rounds need of the item expression: it gives the element of the round as long as the variables it reads are
+   stable, and these are variables of this loop other than the item and the index (a definition, so that the arithmetic
+   tactics do not look inside) *)
+Definition item_ok (n : N) (x : bstr) (l : list value) (item : jenv -> Z -> outcome jval) (stable : jenv -> Prop) : Prop :=
+  (forall je0 pre v r, stable je0 -> l = pre ++ v :: r -> item je0 (Z.of_nat (length pre)) = Ok (to_js v))
+  /\ (forall je0 je1, stable je0 ->
+        (forall y, y <> x -> y <> x ++ t_index -> jvget je1 (jsc_name y (n + 1)) = jvget je0 (jsc_name y (n + 1))) -> stable je1).
+
 (* the rounds of the generated for loop, from round |pre| on *)
 Lemma js_rounds body (HB : JP_b body) buf sc n x env je last l jb n2 :
   is_ident x = true -> ginv sc n buf -> env_rel sc ij env je ->
   bgen mode buf ([] :: loop_frame x (n + 1) :: sc) (n + 1) body = (jb, n2) ->
   small (last + 1) = true -> (0 <= last)%Z -> Z.of_nat (length l) = (last + 1)%Z ->
   forallb core_value l = true ->
+  forall (item : jenv -> Z -> outcome jval) (stable : jenv -> Prop), item_ok n x l item stable ->
   forall items pre envk jek old text, l = pre ++ items ->
     loop_env env envk x last ->
     for_out (fun en => bout ij mode go_print_text en body) x envk (Z.of_nat (length pre)) items = Some text ->
     frame buf n je jek -> jvget jek buf = Some (JStr old) ->
-    jvget jek (jsc_name (x ++ t_list) (n + 1)) = Some (JArr (map to_js l)) ->
+    stable jek ->
     jvget jek (jsc_name (x ++ t_limit) (n + 1)) = Some (JNum (last + 1)) ->
     jvget jek (jsc_name (x ++ t_index) (n + 1)) = Some (JNum (Z.of_nat (length pre))) ->
-    exists je', js_for (fun en => jb_exec en jb) (js_item_elem (jsc_name (x ++ t_list) (n + 1))) (jsc_name x (n + 1))
+    exists je', js_for (fun en => jb_exec en jb) item (jsc_name x (n + 1))
                        (jsc_name (x ++ t_limit) (n + 1)) (jsc_name (x ++ t_index) (n + 1)) (length items) jek = Ok je'
       /\ jvget je' buf = Some (JStr (old ++ text)) /\ frame buf n je je'.
 Proof.
-  intros Hx G ER Eg Hsl1 Hl0 Hlen Hcore.
+  intros Hx G ER Eg Hsl1 Hl0 Hlen Hcore item stable HIK.
   destruct (loop_names_distinct x (n + 1)) as (D1 & D2 & D3 & D4 & D5 & D6). cbn zeta in *.
   set (vd := jsc_name x (n + 1)) in *. set (vlist := jsc_name (x ++ t_list) (n + 1)) in *.
   set (vlen := jsc_name (x ++ t_limit) (n + 1)) in *. set (vidx := jsc_name (x ++ t_index) (n + 1)) in *.
   pose proof (ginv_loop sc n buf x Hx G) as G1.
-  assert (Hsl : small last = true) by (apply (small_between last (last + 1)); [lia|exact Hsl1]).
+  assert (Hsl : small last = true) by (apply (small_between last (last + 1)); [alia|exact Hsl1]).
   assert (Bf : forall y, bstr_eqb buf (jsc_name y (n + 1)) = false) by (intro y; apply bounded_fresh; apply G).
   assert (Bf' : forall y, bstr_eqb (jsc_name y (n + 1)) buf = false) by (intro y; rewrite bstr_eqb_sym; apply Bf).
   induction items as [|v r IH]; intros pre envk jek old text Hl LE Ef Fk Hb Jl Jn Ji.
   - cbn [for_out] in Ef. inversion Ef; subst text. rewrite app_nil_r in Hl. subst pre.
     cbn [length js_for]. rewrite Ji, Jn.
-    replace (Z.of_nat (length l) <? last + 1)%Z with false by (symmetry; apply Z.ltb_ge; lia).
+    replace (Z.of_nat (length l) <? last + 1)%Z with false by (symmetry; apply Z.ltb_ge; alia).
     exists jek. rewrite app_nil_r. auto.
   - cbn [for_out] in Ef. set (i := Z.of_nat (length pre)) in *.
     set (env1 := env_set (env_set envk x v) (x ++ jk_index) (VInt i)) in *.
@@ -664,11 +810,10 @@ Proof.
     destruct (for_out (fun en => bout ij mode go_print_text en body) x env1 (i + 1)%Z r) as [t'|] eqn:Er; [|discriminate].
     inversion Ef; subst text. clear Ef.
     assert (Hlenl : length l = (length pre + S (length r))%nat) by (rewrite Hl, app_length; reflexivity).
-    assert (Hi : (0 <= i <= last)%Z) by (subst i; lia).
+    assert (Hi : (0 <= i <= last)%Z) by (subst i; alia).
     cbn [length js_for]. rewrite Ji, Jn.
-    replace (i <? last + 1)%Z with true by (symmetry; apply Z.ltb_lt; lia).
-    unfold js_item_elem at 1. rewrite Jl, js_index_arr. cbn [bind].
-    replace (list_index l i) with v by (rewrite Hl; subst i; symmetry; apply list_index_mid).
+    replace (i <? last + 1)%Z with true by (symmetry; apply Z.ltb_lt; alia).
+    pose proof (proj1 HIK jek pre v r Jl Hl) as Hit. fold i in Hit. rewrite Hit. cbn [bind]. clear Hit.
     set (je1 := jvset jek vd (to_js v)).
     assert (F1 : frame buf n je je1) by (eapply frame_comp; [exact Fk|apply frame_set_new]).
     assert (LE1 : loop_env env env1 x last) by (apply loop_env_round; assumption).
@@ -693,23 +838,57 @@ Proof.
     { intros y Hy. unfold jvget. rewrite (proj2 F2) by (try apply bounded_new; apply Bf').
       unfold je1. cbn [jvset je_vars]. apply assoc_s_aset_other. exact Hy. }
     pose proof (Keep (x ++ t_index) ltac:(rewrite bstr_eqb_sym; exact D3)) as Ki. fold vidx in Ki. rewrite Ki, Ji.
-    unfold js_num. replace (small (i + 1)) with true by (symmetry; apply (small_between (i + 1) (last + 1)); [lia|exact Hsl1]). cbn [bind].
+    unfold js_num. replace (small (i + 1)) with true by (symmetry; apply (small_between (i + 1) (last + 1)); [alia|exact Hsl1]). cbn [bind].
     set (je3 := jvset je2 vidx (JNum (i + 1))).
     assert (F3 : frame buf n je je3).
-    { eapply frame_comp; [exact F1|]. eapply frame_comp; [eapply frame_weaken; [|exact F2]; lia|apply frame_set_new]. }
+    { eapply frame_comp; [exact F1|]. eapply frame_comp; [eapply frame_weaken; [|exact F2]; alia|apply frame_set_new]. }
     destruct (IH (pre ++ [v]) env1 je3 (old ++ t) t') as (je' & X' & Hb' & F').
     + rewrite <- app_assoc. exact Hl.
     + exact LE1.
-    + rewrite app_length. cbn [length]. replace (Z.of_nat (length pre + 1)) with (i + 1)%Z by (subst i; lia). exact Er.
+    + rewrite app_length. cbn [length]. replace (Z.of_nat (length pre + 1)) with (i + 1)%Z by (subst i; alia). exact Er.
     + exact F3.
     + unfold jvget, je3. cbn [jvset je_vars]. rewrite assoc_s_aset_other by apply Bf. exact Hb2.
-    + unfold jvget, je3. cbn [jvset je_vars]. rewrite assoc_s_aset_other by exact D5.
-      pose proof (Keep (x ++ t_list) ltac:(rewrite bstr_eqb_sym; exact D1)) as Kl. fold vlist in Kl. unfold jvget in Kl. rewrite Kl. exact Jl.
+    + apply (proj2 HIK jek je3 Jl). intros y Hy1 Hy2. unfold jvget at 1. unfold je3. cbn [jvset je_vars].
+      rewrite assoc_s_aset_other by (apply jsc_name_neq; exact Hy2). apply (Keep y). apply jsc_name_neq. exact Hy1.
     + unfold jvget, je3. cbn [jvset je_vars]. rewrite assoc_s_aset_other by exact D6.
       pose proof (Keep (x ++ t_limit) ltac:(rewrite bstr_eqb_sym; exact D2)) as Kn. fold vlen in Kn. unfold jvget in Kn. rewrite Kn. exact Jn.
-    + unfold jvget, je3. cbn [jvset je_vars]. rewrite assoc_s_aset. rewrite app_length. cbn [length]. f_equal. f_equal. subst i. lia.
+    + unfold jvget, je3. cbn [jvset je_vars]. rewrite assoc_s_aset. rewrite app_length. cbn [length]. f_equal. f_equal. subst i. clear - pre. lia.
     + exists je'. split; [exact X'|]. split; [rewrite app_assoc; exact Hb'|exact F'].
 Qed.
+
+(* the arguments of range() on the JavaScript side *)
+Lemma range_args_js sc env je a1 rest zs a l st : env_rel sc ij env je -> cints ij env (a1 :: rest) = Some zs ->
+  range_args 0%Z 1%Z zs = Some (a, l, st) ->
+  exists ei el es, range_args (JENum 0) (JENum 1) (map (cgen sc) (a1 :: rest)) = Some (ei, el, es)
+    /\ small a = true /\ small l = true /\ small st = true
+    /\ forall je', env_rel sc ij env je' -> js_eval je' ei = Ok (JNum a) /\ js_eval je' el = Ok (JNum l) /\ js_eval je' es = Ok (JNum st).
+Proof.
+  intros ER Hc Hr.
+  assert (Hone : forall e z, ceval ij env e = Some (VInt z) ->
+            small z = true /\ forall je', env_rel sc ij env je' -> js_eval je' (cgen sc e) = Ok (JNum z)).
+  { intros e z He. split; [exact (proj2 (cgen_correct sc ij env je ER e (VInt z) He))|].
+    intros je' ER'. exact (proj1 (cgen_correct sc ij env je' ER' e (VInt z) He)). }
+  cbn [cints] in Hc. destruct (ceval ij env a1) as [[| | |z1| | | |]|] eqn:E1; try discriminate.
+  destruct (Hone a1 z1 E1) as [S1 J1].
+  destruct rest as [|e2 rest].
+  - cbn [cints] in Hc. inversion Hc; subst zs. cbn [range_args] in Hr. inversion Hr; subst.
+    exists (JENum 0), (cgen sc a1), (JENum 1). split; [reflexivity|]. repeat split; auto; try (apply J1; assumption).
+  - cbn [cints] in Hc. destruct (ceval ij env e2) as [[| | |z2| | | |]|] eqn:E2; try discriminate.
+    destruct (Hone e2 z2 E2) as [S2 J2].
+    destruct rest as [|e3 rest].
+    + cbn [cints] in Hc. inversion Hc; subst zs. cbn [range_args] in Hr. inversion Hr; subst.
+      exists (cgen sc a1), (cgen sc e2), (JENum 1). split; [reflexivity|]. repeat split; auto; try (apply J1; assumption); try (apply J2; assumption).
+    + cbn [cints] in Hc. destruct (ceval ij env e3) as [[| | |z3| | | |]|] eqn:E3; try discriminate.
+      destruct (Hone e3 z3 E3) as [S3 J3].
+      destruct rest as [|e4 rest].
+      * cbn [cints] in Hc. inversion Hc; subst zs. cbn [range_args] in Hr. inversion Hr; subst.
+        exists (cgen sc a1), (cgen sc e2), (cgen sc e3). split; [reflexivity|]. repeat split; auto; try (apply J1; assumption); try (apply J2; assumption); try (apply J3; assumption).
+      * cbn [cints] in Hc. destruct (ceval ij env e4) as [[| | |z4| | | |]|]; try discriminate.
+        destruct (cints ij env rest) as [zr|]; try discriminate. inversion Hc; subst zs. cbn [range_args] in Hr. discriminate.
+Qed.
+
+Lemma small_in a l v : small a = true -> small l = true -> (a <= v <= l \/ l <= v <= a)%Z -> small v = true.
+Proof. unfold small. intros Ha Hl H. apply Z.leb_le in Ha, Hl. apply Z.leb_le. lia. Qed.
 
 Theorem js_exec_all : (forall s, JP_s s) /\ (forall b, JP_b b) /\ (forall e, JP_e e) /\ (forall k, JP_k k).
 Proof.
@@ -812,8 +991,8 @@ Proof.
         destruct (bout ij mode go_print_text env ie) as [t|] eqn:Et; [|discriminate]. inversion E; subst. clear E.
         rewrite js_exec_foreach, Hj. cbn [bind map length Z.of_nat andb]. replace (0 <=? 0)%Z with true by reflexivity. cbn iota. fold je2.
         assert (I2 : jinv buf sc' env' je2 old) by (split; [exact (env_rel_frame buf sc' n env' je je2 G ER F2)|exact Hb2]).
-        destruct (JP_block ie IHi buf sc' n1 env' je2 old text ji n' (ginv_mono sc' n n1 buf ltac:(lia) G) Et I2 E2) as (je' & X & Hb' & F').
-        assert (F : frame buf n je je') by (eapply frame_comp; [exact F2|eapply frame_weaken; [|exact F']; lia]).
+        destruct (JP_block ie IHi buf sc' n1 env' je2 old text ji n' (ginv_mono sc' n n1 buf ltac:(alia) G) Et I2 E2) as (je' & X & Hb' & F').
+        assert (F : frame buf n je je') by (eapply frame_comp; [exact F2|eapply frame_weaken; [|exact F']; alia]).
         exists je'. split; [exact X|]. split; [exact (jinv_frame buf sc' n env' je je' old _ G I F Hb')|exact F].
       * inversion Eg; subst. clear Eg. inversion E; subst. clear E.
         rewrite js_exec_foreach, Hj. cbn [bind map length Z.of_nat andb]. fold je2.
@@ -832,25 +1011,135 @@ Proof.
       { destruct hasie; [destruct (bgen mode buf ([] :: sc) n1 ie) as [ji n2]|]; inversion Eg; eexists; split; reflexivity. }
       destruct Ej as (ji & -> & ->). inversion E; subst t env'. clear E.
       rewrite js_exec_foreach, Hj. cbn [bind]. rewrite map_length. fold je2.
-      replace (hasie && (Z.of_nat (length l) <=? 0)%Z) with false by (subst l; cbn [length]; rewrite andb_comm; symmetry; apply andb_false_intro1; apply Z.leb_gt; lia).
+      replace (hasie && (Z.of_nat (length l) <=? 0)%Z) with false by (subst l; cbn [length]; rewrite andb_comm; symmetry; apply andb_false_intro1; apply Z.leb_gt; alia).
       set (je3 := jvset je2 vidx (JNum 0)).
       assert (F3 : frame buf n je je3) by (eapply frame_comp; [exact F2|apply frame_set_new]).
       assert (LE : loop_env env (env_set env (x ++ c_lastindex) (VInt last)) x last).
       { split; [unfold env_set; rewrite bstr_eqb_refl'; reflexivity|]. intros key _ _ K3. unfold env_set. rewrite K3. reflexivity. }
       destruct (js_rounds body IHb buf sc n x env je last l jb n1 Hx G ER E1) with (items := l) (pre := @nil value)
+          (item := js_item_elem vlist) (stable := fun en => jvget en vlist = Some (JArr (map to_js l)))
           (envk := env_set env (x ++ c_lastindex) (VInt last)) (jek := je3) (old := old) (text := text) as (je' & X & Hb' & F').
-      * replace (last + 1)%Z with (Z.of_nat (length l)) by (subst last; lia). exact Hsm.
-      * subst last l. cbn [length]. lia.
-      * subst last. lia.
+      * replace (last + 1)%Z with (Z.of_nat (length l)) by (subst last; alia). exact Hsm.
+      * subst last l. cbn [length]. alia.
+      * subst last. alia.
       * exact Hcv.
+      * split.
+        -- intros je0 pre v r S0 Hl. unfold js_item_elem. rewrite S0, js_index_arr, Hl, list_index_mid. reflexivity.
+        -- intros je0 je1 S0 Hk. subst vlist. rewrite Hk; [exact S0|intro Q; symmetry in Q; revert Q; apply app_neq_self; discriminate|apply app_neq_tails; discriminate].
       * reflexivity.
       * exact LE.
       * exact Ef.
       * exact F3.
       * unfold jvget, je3. cbn [jvset je_vars]. rewrite assoc_s_aset_other by apply Bf. exact Hb2.
       * unfold jvget, je3, je2. cbn [jvset je_vars]. rewrite assoc_s_aset_other by exact D5. rewrite assoc_s_aset_other by exact D4. apply assoc_s_aset.
-      * unfold jvget, je3, je2. cbn [jvset je_vars]. rewrite assoc_s_aset_other by exact D6. rewrite assoc_s_aset. f_equal. f_equal. subst last. lia.
+      * unfold jvget, je3, je2. cbn [jvset je_vars]. rewrite assoc_s_aset_other by exact D6. rewrite assoc_s_aset. f_equal. f_equal. subst last. alia.
       * unfold jvget, je3. cbn [jvset je_vars]. apply assoc_s_aset.
+      * exists je'. split; [exact X|]. split; [eapply jinv_frame; eauto|exact F'].
+  - (* for over range() *) intros x a1 rest body IHb hasie ie IHi buf sc n env je old text env' j sc' n' G E I Eg.
+    rewrite sout_forrange in E. rewrite sgen_forrange in Eg.
+    destruct (is_ident x) eqn:Hx; [|discriminate]. destruct (bstr_eqb x n_ij) eqn:Hxij; [discriminate|]. cbn [andb negb] in E.
+    destruct (cints ij env (a1 :: rest)) as [zs|] eqn:Hc; [|discriminate].
+    destruct (range_args 0%Z 1%Z zs) as [[[a l] st]|] eqn:Hr; [|discriminate].
+    destruct (0 <? st)%Z eqn:Hst; [|discriminate]. destruct (small (l - a)) eqn:Hsd; [|discriminate]. cbn [andb] in E. cbn zeta in E.
+    apply Z.ltb_lt in Hst. pose proof I as [ER Hb].
+    destruct (range_args_js sc env je a1 rest zs a l st ER Hc Hr) as (ei & el & es & Hra & Hsa & Hsl & Hss & Hev).
+    rewrite Hra in Eg.
+    destruct (bgen mode buf ([] :: loop_frame x (n + 1) :: sc) (n + 1) body) as [jb n1] eqn:E1.
+    pose proof (proj1 (proj2 (sgen_mono_all mode)) _ _ _ _ _ _ E1) as Hn1.
+    destruct (range_cnt_bound a l st Hst) as (C0 & C1 & C2).
+    rewrite (range_items_spec st l Hst) in E by alia. set (cnt := range_cnt a l st) in *.
+    assert (Hscnt : small cnt = true).
+    { unfold small in *. apply Z.leb_le in Hsd. apply Z.leb_le. alia. }
+    set (vd := jsc_name x (n + 1)) in *. set (vinit := jsc_name (x ++ t_init) (n + 1)) in *. set (vstep := jsc_name (x ++ t_step) (n + 1)) in *.
+    set (vlen := jsc_name (x ++ t_limit) (n + 1)) in *. set (vidx := jsc_name (x ++ t_index) (n + 1)) in *.
+    assert (N1 : bstr_eqb vinit vstep = false) by (apply jsc_name_neq, app_neq_tails; discriminate).
+    assert (N2 : bstr_eqb vinit vlen = false) by (apply jsc_name_neq, app_neq_tails; discriminate).
+    assert (N3 : bstr_eqb vstep vlen = false) by (apply jsc_name_neq, app_neq_tails; discriminate).
+    assert (N4 : bstr_eqb vlen vidx = false) by (apply jsc_name_neq, app_neq_tails; discriminate).
+    assert (Bf : forall y, bstr_eqb buf (jsc_name y (n + 1)) = false) by (intro y; apply bounded_fresh; apply G).
+    set (je1 := jvset je vinit (JNum a)). set (je2 := jvset je1 vstep (JNum st)). set (je3 := jvset je2 vlen (JNum cnt)).
+    assert (F1 : frame buf n je je1) by apply frame_set_new.
+    assert (F2 : frame buf n je je2) by (eapply frame_comp; [exact F1|apply frame_set_new]).
+    assert (F3 : frame buf n je je3) by (eapply frame_comp; [exact F2|apply frame_set_new]).
+    assert (Hb3 : assoc_s buf (je_vars je3) = Some (JStr old)).
+    { unfold je3, je2, je1. cbn [jvset je_vars]. rewrite !assoc_s_aset_other by apply Bf. exact Hb. }
+    assert (Ej : exists ji, j = JSForRange vd vinit vstep vlen vidx ei es el jb hasie ji /\ sc' = sc
+                            /\ (if hasie then bgen mode buf ([] :: sc) n1 ie else (JBNil, n1)) = (ji, n')).
+    { destruct hasie; [destruct (bgen mode buf ([] :: sc) n1 ie) as [ji n2]|]; inversion Eg; eexists; repeat split; reflexivity. }
+    destruct Ej as (ji & -> & -> & Eji). clear Eg.
+    (* the three declarations *)
+    rewrite js_exec_forrange. rewrite (proj1 (Hev je ER)). cbn [bind]. fold je1.
+    rewrite (proj2 (proj2 (Hev je1 (env_rel_frame buf sc n env je je1 G ER F1)))). cbn [bind]. fold je2.
+    rewrite (proj1 (proj2 (Hev je2 (env_rel_frame buf sc n env je je2 G ER F2)))). cbn [bind].
+    assert (J2i : jvget je2 vinit = Some (JNum a)) by (unfold jvget, je2, je1; cbn [jvset je_vars]; rewrite assoc_s_aset_other by exact N1; apply assoc_s_aset).
+    assert (J2s : jvget je2 vstep = Some (JNum st)) by (unfold jvget, je2; cbn [jvset je_vars]; apply assoc_s_aset).
+    rewrite J2i, J2s. unfold js_range_count. replace (st =? 0)%Z with false by (symmetry; apply Z.eqb_neq; alia). rewrite Hsd.
+    rewrite ceil_div by exact Hst. fold (range_cnt a l st). fold cnt. unfold js_num. rewrite Hscnt. cbn [bind]. fold je3.
+    destruct (Z.to_nat cnt) as [|k] eqn:Ek.
+    + (* no element *) assert (cnt = 0%Z) by alia. cbn [lin_list] in E.
+      replace (cnt <=? 0)%Z with true by (symmetry; apply Z.leb_le; alia). rewrite andb_true_r.
+      destruct hasie.
+      * destruct (bout ij mode go_print_text env ie) as [t|] eqn:Et; [|discriminate]. inversion E; subst. clear E.
+        assert (I3 : jinv buf sc env' je3 old) by (split; [exact (env_rel_frame buf sc n env' je je3 G ER F3)|exact Hb3]).
+        destruct (JP_block ie IHi buf sc n1 env' je3 old text ji n' (ginv_mono sc n n1 buf ltac:(alia) G) Et I3 Eji) as (je' & X & Hb' & F').
+        assert (F : frame buf n je je') by (eapply frame_comp; [exact F3|eapply frame_weaken; [|exact F']; alia]).
+        exists je'. split; [exact X|]. split; [exact (jinv_frame buf sc n env' je je' old _ G I F Hb')|exact F].
+      * inversion E; subst. clear E. cbn [js_for]. unfold jvget. cbn [jvset je_vars]. rewrite assoc_s_aset.
+        rewrite assoc_s_aset_other by exact N4. unfold je3 at 1. cbn [jvset je_vars]. rewrite assoc_s_aset.
+        replace (0 <? cnt)%Z with false by (symmetry; apply Z.ltb_ge; alia). eexists. split; [reflexivity|]. rewrite app_nil_r.
+        assert (F : frame buf n je (jvset je3 vidx (JNum 0))) by (eapply frame_comp; [exact F3|apply frame_set_new]).
+        split; [|exact F]. eapply jinv_frame; eauto. cbn [jvset je_vars]. rewrite assoc_s_aset_other by apply Bf. exact Hb3.
+    + (* at least one element *)
+      set (l0 := lin_list (S k) a st) in *.
+      assert (Hlen0 : length l0 = S k) by apply lin_list_length.
+      assert (Hl0 : exists v0 r0, l0 = v0 :: r0) by (unfold l0; cbn [lin_list]; eauto). destruct Hl0 as (v0 & r0 & Hl0).
+      rewrite Hl0 in E. rewrite <- Hl0 in E.
+      replace (hasie && (cnt <=? 0)%Z) with false by (rewrite andb_comm; symmetry; apply andb_false_intro1; apply Z.leb_gt; alia).
+      set (last := (Z.of_nat (length l0) - 1)%Z) in *.
+      destruct (for_out (fun en => bout ij mode go_print_text en body) x (env_set env (x ++ c_lastindex) (VInt last)) 0%Z l0) as [t|] eqn:Ef; [|discriminate].
+      inversion E; subst t env'. clear E.
+      assert (Hcl : (cnt = last + 1)%Z) by (subst last; rewrite Hlen0; alia).
+      (* every element is a + j * st with 0 <= j < cnt, between a and l *)
+      assert (Helem : forall pre v r, l0 = pre ++ v :: r ->
+                v = VInt (a + Z.of_nat (length pre) * st) /\ (0 <= Z.of_nat (length pre) * st <= Z.max 0 (l - a - 1))%Z).
+      { intros pre v r Hs. split; [exact (lin_list_mid st pre (S k) a v r Hs)|].
+        assert (length l0 = (length pre + S (length r))%nat) by (rewrite Hs, app_length; reflexivity).
+        repeat match goal with H : ?T |- _ => tryif keep_arith T then fail else clear H end. nia. }
+      assert (Hcore : forallb core_value l0 = true).
+      { apply forallb_forall. intros v Hv. destruct (in_split v l0 Hv) as (pre & r & Hs). destruct (Helem pre v r Hs) as [-> Hb0].
+        cbn [core_value]. apply (small_in a l); [exact Hsa|exact Hsl|]. left. alia. }
+      set (je4 := jvset je3 vidx (JNum 0)).
+      assert (F4 : frame buf n je je4) by (eapply frame_comp; [exact F3|apply frame_set_new]).
+      assert (LE : loop_env env (env_set env (x ++ c_lastindex) (VInt last)) x last).
+      { split; [unfold env_set; rewrite bstr_eqb_refl'; reflexivity|]. intros key _ _ K3. unfold env_set. rewrite K3. reflexivity. }
+      replace (S k) with (length l0) by exact Hlen0.
+      destruct (js_rounds body IHb buf sc n x env je last l0 jb n1 Hx G ER E1) with (items := l0) (pre := @nil value)
+          (item := js_item_lin vinit vstep) (stable := fun en => jvget en vinit = Some (JNum a) /\ jvget en vstep = Some (JNum st))
+          (envk := env_set env (x ++ c_lastindex) (VInt last)) (jek := je4) (old := old) (text := text) as (je' & X & Hb' & F').
+      * rewrite <- Hcl. exact Hscnt.
+      * alia.
+      * alia.
+      * exact Hcore.
+      * split.
+        -- intros je0 pre v r [S1 S2] Hs. destruct (Helem pre v r Hs) as [-> Hb0]. unfold js_item_lin. rewrite S1, S2. unfold js_num.
+           replace (small (Z.of_nat (length pre) * st)) with true
+             by (symmetry; apply (small_in 0 (l - a)); [reflexivity|exact Hsd|left; alia]). cbn [bind].
+           replace (small (a + Z.of_nat (length pre) * st)) with true
+             by (symmetry; apply (small_in a l); [exact Hsa|exact Hsl|left; alia]). reflexivity.
+        -- intros je0 je1' [S1 S2] Hk. unfold vinit, vstep in *. split; (rewrite Hk; [assumption| |]);
+             first [apply app_neq_tails; discriminate | (intro Q; symmetry in Q; revert Q; apply app_neq_self; discriminate)].
+      * reflexivity.
+      * exact LE.
+      * exact Ef.
+      * exact F4.
+      * unfold jvget, je4. cbn [jvset je_vars]. rewrite assoc_s_aset_other by apply Bf. exact Hb3.
+      * split.
+        -- unfold jvget, je4, je3. cbn [jvset je_vars]. rewrite assoc_s_aset_other by (apply jsc_name_neq, app_neq_tails; discriminate).
+           rewrite assoc_s_aset_other by exact N2. exact J2i.
+        -- unfold jvget, je4, je3. cbn [jvset je_vars]. rewrite assoc_s_aset_other by (apply jsc_name_neq, app_neq_tails; discriminate).
+           rewrite assoc_s_aset_other by exact N3. exact J2s.
+      * unfold jvget, je4, je3. cbn [jvset je_vars]. rewrite assoc_s_aset_other by exact N4. rewrite assoc_s_aset. f_equal. f_equal. exact Hcl.
+      * unfold jvget, je4. cbn [jvset je_vars]. apply assoc_s_aset.
       * exists je'. split; [exact X|]. split; [eapply jinv_frame; eauto|exact F'].
   - (* BNil *) intros buf sc n env je old text jb n' G E I Eg. rewrite bout_nil in E. rewrite bgen_nil in Eg. inversion E; subst. inversion Eg; subst.
     exists je. rewrite app_nil_r. split; [reflexivity|]. split; [apply I|apply frame_refl].
